@@ -48,7 +48,9 @@ def herm_measure(rec, cls, detail, A, lam_exp):
     rec.units(t, "AV_eq_VLambda", units(ofro(omul(A, Vf) - omul(Vf, D)), max(scale, 1e-300), 4 * n * n))
     # eigenvalues-only / eigenvectors-only entry points agree
     ev2 = np.asarray(L.eigen.quaternion_eigenvalues(Aq.copy()))
-    rec.flag(t, "EntryPointsAgree", bool(ev2.shape == ev.shape and np.allclose(np.sort(np.real(ev2)), got, atol=1024 * EPS * top)))
+    V2 = q_to_float(np.asarray(L.eigen.quaternion_eigenvectors(Aq.copy()), dtype=np.quaternion))
+    rec.flag(t, "EntryPointsAgree", bool(ev2.shape == ev.shape and np.allclose(np.sort(np.real(ev2)), got, atol=1024 * EPS * top)
+                                         and V2.shape == Vf.shape and np.array_equal(V2, Vf)))
 
 
 def _class_job(args):
